@@ -30,8 +30,10 @@ CLAIMS = {
              "writes through a destination reference, so unused arguments leave their variables alone; def-use of every "
              "store shows it is boost::lexical_cast<destination type> of the incoming value or of its formatted copy, "
              "formatters run before the conversion; who-may-call shows a single funnel into assign(); lookup structure "
-             "shared with C05. The equivalence of all command-line spellings (tokenisation by the ArgListIterator state "
-             "machine) is a relation over an exponential input space and is NOT decided.",
+             "shared with C05. Of the tokeniser two clauses are decided: the one-step 'rest of the word is the value' request "
+             "is cleared on every exit of operator++, and '--key=value' is split at the FIRST '=' (family of the search "
+             "in determineNextArg). The full equivalence of all command-line spellings (tokenisation by the "
+             "ArgListIterator state machine) is a relation over an exponential input space and is NOT decided.",
         note="trusts clang AST/CFG, boost::lexical_cast; spelling equivalence not covered",
         technique="static analysis: who-may-write effect facts, def-use of stores, who-may-call"),
     "C02": dict(
@@ -41,7 +43,9 @@ CLAIMS = {
              "notifications over assignValue (with the argument's canonical key), check() on every path / in every "
              "tokenizer-loop iteration of all 45 value-taking assign() instantiations (closed under wrappers), "
              "unknown-element and missing-value paths end in throw, cardinality counted before every command-line "
-             "assignment. Path rules quantify over all command lines because they quantify over all paths.",
+             "assignment, the ignore_cardinality argument of every assignValue() call in the handler evaluates to false "
+             "in read mode commandLine, the end checks of value constraints compare every argument of the constraint. "
+             "Path rules quantify over all command lines because they quantify over all paths.",
         note="trusts clang AST/CFG and the extractor; exceptions are the only failure channel; value conversion "
              "itself (boost::lexical_cast) and regex/file-system check semantics are not decided",
         technique="static analysis: CFG must-pass-through / dominance / sibling agreement over resolved calls"),
@@ -53,7 +57,8 @@ CLAIMS = {
              "abstract evaluation of the ignore_cardinality argument for every read mode plus RAII read-mode flags "
              "alive around iterateArguments, every call of ICardinality::gotValue() in the library control-dependent "
              "on that information (the parameter in assignValue, a member set from it in the list loops of the "
-             "multi-value destinations), canonical key for constraint matching. The general statement is not "
+             "multi-value destinations), canonical key for constraint matching, value constraints relate only values that "
+             "were given (compareValue() reachable only through hasValue()-true edges of both arguments). The general statement is not "
              "decidable statically and is not claimed.",
         note="trusts clang AST/CFG; boost::lexical_cast converts every representable value; interaction of arbitrary "
              "checks/formats/constraints is not decided", also=("engine B (boolshape.py)",),
@@ -64,7 +69,8 @@ CLAIMS = {
              "capacity of every strcpy destination in the library (program-name copies, generated argv words), every "
              "index into the generated argv array (range-for with ghost iteration counter and lock-step argc) and "
              "every write into fixed-size destinations (T[N], std::array, std::bitset, vector<bool> incl. growth and "
-             "max_size guard); AST rules decide new[]/delete[]/unique_ptr form agreement; a call-graph rule shows "
+             "max_size guard); AST rules decide new[]/delete[]/unique_ptr form agreement and that every pointer stored into "
+             "the delete[]-released argv storage comes from new[]; a call-graph rule shows "
              "that only std::exception-derived types are thrown from the evaluation entry points, no re-throw "
              "outside a handler, no throw in noexcept functions (positive control analysed on every run). The cursor of "
              "detail::ArgListIterator is decided by an inductive four-case invariant relating word index and "
@@ -87,8 +93,10 @@ CLAIMS = {
              "the meaning of the std::string operation its result is based on (compare of the whole other word "
              "against the first n characters / find(...) == 0 / rfind( ..., 0) == 0; observation facts of Engine C). "
              "The key containers of a handler (normal and sub-group arguments) form one key space: every addition is "
-             "checked against the other container and a lookup never uses an abbreviation match of one container "
-             "without consulting the other. Key parsing: the string constructor of ArgumentKey removes exactly the "
+             "checked against the other container, and the lookup in Handler::processArg is evaluated abstractly for "
+             "EVERY combination of what the two containers hold for the key (nothing / the exact key / one / several "
+             "abbreviation matches) against the contract of the container lookups: an exact key always selects its "
+             "own argument, one abbreviation match in total selects it, none is unknown, more than one throws. Key parsing: the string constructor of ArgumentKey removes exactly the "
              "leading dashes (at most two) for every specification text (Engine C with symbolic characters).",
         note="trusts clang AST/CFG and the documented meaning of std::string::compare/find/rfind/substr; the comma "
              "form of key specifications is not decided",
@@ -155,8 +163,9 @@ CLAIMS = {
              "summarising observers are decided against the reference bit vector: polarity of the std::find/"
              "std::count definitions of all/any/none/count, visit-all proofs for to_ulong (start 0, step 1, ends only "
              "at size(), overflow exception only for a set position >= 64, shift distance < 64) and to_string "
-             "(size() characters, a set bit i stores `one` at size()-1-i). The mutating operators (flip, reset, resize, "
-             "set/reset/flip( pos), operator= from a vector, &=, |=, ^=, ~, <<, <<=, >>, >>=) are decided bit by bit: "
+             "(size() characters, a set bit i stores `one` at size()-1-i). The mutating operators (set, flip, reset, resize, "
+             "set/reset/flip( pos), the growing operator[], operator= from a vector (copy and move), &=, |=, ^=, the "
+             "binary &, |, ^ (same specification as their compound counterparts), ~, <<, <<=, >>, >>=) are decided bit by bit: "
              "a bit-level content model of std::vector<bool> (element reads are bit expressions, element writes / "
              "resize / flip / copies are log entries, element-wise loops are summarised into one entry after proving "
              "that no iteration reads what an earlier one wrote) lets the bit at a symbolic position of the result "
